@@ -36,7 +36,7 @@ RULE = ("cases: target in {wsgi server, bare server, client, TLS client} x (vali
 ASSUMPTIONS = ["the WSGI application is a well-behaved echo application", "redirect targets resolve to in-memory connectors "
                "(clienting.tcp.Client / ClientTls are replaced by fake connectors inside the check process)"]
 
-BAD_SIZES = ["-1", "+5", "0x5", "1_0", "", "g", "5 5", "zz", "0x", "-0", "ffffffffffffffffffff",
+BAD_SIZES = ["-1", "+5", "0x5", "1_0", "", " ", "\t", "  ", " ;ext=1", ";a=b", " 5 ", "g", "5 5", "zz", "0x", "-0", "ffffffffffffffffffff",
              "4\xe9", "\xff", "\x80", "5;e\xff=1", "5;\xe9", "1\x00", "\u0665".encode("utf-8").decode("latin-1"), "5;a=\"\xff\""]
 BAD_TARGETS = ["http://example.com:99999/x", "http://example.com:-1/", "http://[::1/x", "http://[1:2/", "http://exa mple.com/",
                "http://example.com:abc/x", "//[/x", "http://[::1]:8x/", "*", "", "/\xff\xfe", "http://[v1.x]/", "/a?b#c"]
